@@ -38,7 +38,7 @@ def main():
         out.append('')
     p = os.path.join(V, 'DESIGN.md')
     s = open(p).read()
-    m = re.search(r'(?m)^### 10\.1[67] Rule index.*$', s)
+    m = re.search(r'(?m)^### 10\.1[0-9] Rule index.*$', s)
     s = s[:m.start()] if m else s.rstrip('\n') + '\n\n'
     open(p, 'w').write(s + '\n'.join(out) + '\n')
 
